@@ -341,11 +341,13 @@ Script(svc) ==
     \* request without OPT, answer assembled until a push fails
     [] svc = "fill"    -> <<IR>>
     [] svc = "fill64"  -> <<IR>>
-    \* request with a COOKIE option whose server cookie is far away in
-    \* serial-number space / expired / of a forbidden length (the
-    \* cookie middleware answers FORMERR itself)
+    \* request with a COOKIE option whose server cookie (right hash) is far
+    \* away in serial-number space / expired: invalid, processed normally
+    \* (RFC 7873 5.2.3 (3)); of a forbidden length: the cookie middleware
+    \* answers FORMERR itself, at once, the service never sees the request
     [] svc = "ckfar"   -> <<IR>>
     [] svc = "ckexp"   -> <<IR>>
+    [] svc = "cklen"   -> <<IFe>>
     \* Err(ServiceError) of the other kinds
     [] svc = "ffail"   -> <<[t |-> "ffail", fb |-> "none"]>>
     [] svc = "refuse"  -> <<[t |-> "refuse", fb |-> "none"]>>
@@ -356,6 +358,10 @@ Script(svc) ==
 FailItems == {"fail", "ffail", "refuse", "nimp"}
 FailKind(t) == CASE t = "ffail" -> "formerr" [] t = "refuse" -> "refused"
                  [] t = "nimp" -> "notimp" [] OTHER -> "servfail"
+
+\* answers that need no completion of the service: the echo service, and
+\* what a middleware answers itself
+Permits0(svc) == IF svc \in {"echo", "cklen"} THEN 1 ELSE 0
 
 Task(items, permits, disp) ==
   [items |-> items, permits |-> permits, disp |-> disp, status |-> "normal",
@@ -539,7 +545,7 @@ EnvSend(s, what, r, svc) ==       \* what \in query | partial | reply | short
   LET it == [t |-> what, r |-> r, svc |-> svc]
       s1 == [s EXCEPT !.inb = Append(@, it)]
   IN IF what \in {"query", "partial"}
-     THEN [s1 EXCEPT !.tasks = @ @@ (r :> Task(Script(svc), IF svc = "echo" THEN 1 ELSE 0, FALSE))]
+     THEN [s1 EXCEPT !.tasks = @ @@ (r :> Task(Script(svc), Permits0(svc), FALSE))]
      ELSE s1
 EnvRest(s) ==
   [s EXCEPT !.inb[Len(s.inb)].t = "query"]
@@ -623,7 +629,7 @@ DgRecv(d, what, r, svc) ==        \* what: query | short (QR clear), reply | sho
                     !.unsent = IF d.sendfail > 0 THEN @ \cup {resp} ELSE @,
                     !.sendfail = IF @ > 0 THEN @ - 1 ELSE 0,
                     !.tasks = @ @@ (r :> Task(<<>>, 0, TRUE))]
-  ELSE [d EXCEPT !.tasks = @ @@ (r :> Task(Script(svc), IF svc = "echo" THEN 1 ELSE 0, TRUE)),
+  ELSE [d EXCEPT !.tasks = @ @@ (r :> Task(Script(svc), Permits0(svc), TRUE)),
                  !.hints = @ @@ (r :> d.limit),
                  !.bigs = IF svc \in {"big", "mid", "huge"} THEN @ @@ (r :> svc) ELSE @]
 
@@ -645,9 +651,11 @@ DgYield(d, r) ==
       \* the limit in force when the request was received decides
       cut == it.t = "big" /\ Final({}, BigReqS(r, d.bigs[r]), d.hints[r], BigSvcS(r, d.bigs[r])).tc
       resp == IF it.t \in FailItems THEN Resp(r, FailKind(it.t), 0)
+              ELSE IF it.t = "formerr" THEN Resp(r, "formerr", 0)   \* a middleware's own FORMERR
               ELSE IF cut THEN Resp(r, "trunc", 0)
               ELSE Resp(r, "ans", t.n + 1)
-      t2 == IF it.t \in FailItems THEN [t1 EXCEPT !.status = "abort"] ELSE [t1 EXCEPT !.n = @ + 1]
+      t2 == IF it.t \in FailItems THEN [t1 EXCEPT !.status = "abort"]
+            ELSE IF it.t = "formerr" THEN t1 ELSE [t1 EXCEPT !.n = @ + 1]
   IN [d EXCEPT !.tasks[r] = t2, !.yielded = Append(@, resp),
                !.sent = IF d.sendfail > 0 THEN @ ELSE Append(@, resp),
                !.unsent = IF d.sendfail > 0 THEN @ \cup {resp} ELSE @,
